@@ -4,6 +4,7 @@
 package simnet
 
 import (
+	"os"
 	"errors"
 	"io"
 )
@@ -29,6 +30,17 @@ const (
 
 var ErrInjected = errors.New("simnet: injected read error")
 var ErrShort = errors.New("simnet: fewer bytes buffered than requested")
+// ErrDeadline is a read error of the "timeout" class (what a connection with a read deadline returns): it wraps
+// os.ErrDeadlineExceeded and reports Timeout() == true.
+var ErrDeadline error = deadlineError{}
+
+type deadlineError struct{}
+
+func (deadlineError) Error() string   { return "simnet: read deadline exceeded" }
+func (deadlineError) Timeout() bool   { return true }
+func (deadlineError) Temporary() bool { return true }
+func (deadlineError) Unwrap() error   { return os.ErrDeadlineExceeded }
+
 var ErrSegment = errors.New("simnet: the requested octets are not contiguous yet (short peek)")
 
 // Source supplies arriving bytes to a blocked Read: the simulated network
@@ -60,6 +72,11 @@ type SimConn struct {
 	SegPeek   func(avail, n int) int
 	PeekShort bool
 	coalesced bool
+	// PeekErrWithData: once the stream has ended (an error is pending), a Peek that CAN hand out all n octets still
+	// reports that error along with them. The interface only says a short Peek comes with an error; it does not say
+	// a complete one comes without.
+	PeekErrWithData bool
+	OnPeekErr       func()
 	// ZeroRead, if set, is asked before a Read hands data over whether this call returns (0, nil) instead
 	// (io.Reader discourages but allows it; callers must treat it as "nothing happened").
 	ZeroRead func() bool
@@ -155,6 +172,12 @@ func (c *SimConn) Peek(n int) ([]byte, error) {
 			c.coalesced = true
 			c.PeekShort = true
 			return c.buf[c.r : c.r+k : c.r+k], ErrSegment
+		}
+	}
+	if c.PeekErrWithData && err == nil && c.pendErr != nil && n > 0 {
+		err = c.pendErr
+		if c.OnPeekErr != nil {
+			c.OnPeekErr()
 		}
 	}
 	if c.disc == Ring && n > 1 {
